@@ -483,6 +483,10 @@ func c02Gen(runSeed uint64, tier string) *gen.Scenario {
 	g := gen.New(runSeed ^ 0xc02)
 	lo := g.ListObjectsRequests(sc.Model, 4, [3]float64{0.8, 0.05, 0.15})
 	sc.Requests = append(sc.Requests, lo...)
+	if g.Chance(0.04) || gen.Forced("wideexclusion") {
+		// directed shape: several hundred object ids streamed in batches by the fast strategies
+		sc.Model, sc.Tuples, sc.Requests = g.WideExclusion()
+	}
 	sc.Knobs["conc"] = []int64{1, 1, 3}[g.Intn(3)]
 	sc.Knobs["faults"] = 0
 	return sc
